@@ -118,7 +118,7 @@ type frame struct {
 	pc       int
 	visits   map[int]int
 	forks    map[int]int // undecided branches taken per block (the loop bound counts these)
-	bind     ssa.Value // call instruction in the caller that receives the result
+	bind     ssa.Value   // call instruction in the caller that receives the result
 	isDefer  bool
 	depth    int
 	inDefer  bool
